@@ -12,6 +12,12 @@ Streams (DESIGN 3.2):
   ls     LSCycles.number = n / set_refine_cycles(n): str(obj) denotes (n, nrf, nextra)
   wght   Shelxfile.update_weight(): str(shx.wght) denotes the suggested scheme
 Only attribute values, the object's presence and the tokens of str(obj) are observed.
+
+Classes: table shaped (regenerated `slotTable`, theorem `instruction_attrs`): the keywords of `tableKws` in
+ShelxProps/C16.lean. Residual, modelled by hand: PART, LATT, TWIN, HTAB (dh form), SUMP, LSCycles. Residual, compared with the
+spec only (no model): HFIX, and the whole-list classes BASF, UNIT, ACTA. Left out (no check): RESI, RTAB, FREE, ANIS, FRAG,
+BIND, DISP (its `element`/`parameter` names are swapped in the code), CONF, CONN, SYMM, SFAC, the `HTAB donor acceptor` form, and
+the residue suffix (`DFIX_2`, `SADI_CCF3`: residue_class / residue_number) of restraints.
 """
 from fractions import Fraction
 
@@ -28,7 +34,7 @@ RESTRAINTS = {'DFIX', 'DANG', 'SADI', 'SAME', 'FLAT', 'CHIV', 'DELU', 'SIMU', 'R
 NAMES = {'DFIX': ['C1', 'C2'], 'DANG': ['C1', 'C3'], 'SADI': ['C1', 'C2', 'C3', 'C4'], 'SAME': ['C1', 'C2', 'C3'],
          'FLAT': ['C1', 'C2', 'C3', 'C4'], 'CHIV': ['C2'], 'DELU': ['C1', 'C2'], 'SIMU': ['C1', 'C2', 'C3'],
          'RIGU': ['C1', 'C2', 'C3'], 'ISOR': ['C3', 'C4'], 'NCSY': ['C1', 'C2'], 'BLOC': ['C1', 'C2'], 'MPLA': ['C1', 'C2', 'C3', 'C4'],
-         'HFIX': ['C1']}
+         'HFIX': ['C1'], 'EADP': ['C1', 'C2'], 'EXYZ': ['C3', 'C4'], 'BOND': ['C1', 'C2', 'C3']}
 
 _SYNTAX = None
 
@@ -537,8 +543,8 @@ def run(ctx):
                     if kw in NAMES:
                         c['names'] = NAMES[kw]
                     cases.append(c)
-    # setters
-    settable = [kw for kw, sp in syn.items() if sp['finite'] and kw not in RESTRAINTS and kw not in ('DEFS', 'CELL', 'ZERR', 'LATT', 'L.S.', 'CGLS', 'AFIX', 'PART')]
+    # setters (Restraint classes have no set())
+    settable = [kw for kw, sp in syn.items() if sp['finite'] and kw not in RESTRAINTS and kw not in ('EADP', 'EXYZ', 'DEFS', 'CELL', 'ZERR', 'LATT', 'L.S.', 'CGLS', 'AFIX', 'PART')]
     for kw in settable:
         sp = syn[kw]
         for _ in range(ctx.budget(2, 40)):
